@@ -659,7 +659,161 @@ fn run_loop_readerrace() -> Option<(String, String, String)> {
     }
     None
 }
+// the whole pipeline through a running store (loop + do_reduce + do_effect + do_notify together): middlewares with a
+// fixed verdict per hook, a reducer chain, subscribers; the log of all callbacks is compared, action by action, with the
+// reference semantics.  Where the statements leave the notify decision open (vetoed action, mixed chain) both are accepted.
+// case: "loop storepipe mw=<n> v=<3 letters per middleware> red=<chain> subs=<n>"
+fn run_storepipe_case(m: &Model, actions: &[Ac]) -> Option<(String, String, String)> {
+    let log: Log = Arc::new(Mutex::new(vec![]));
+    let verdicts = Arc::new(Mutex::new(if m.n_mw == 0 { vec![[V::Continue; 3]] } else { m.verdicts.clone() }));
+    let remove = Arc::new(Mutex::new(if m.n_mw == 0 { vec![false] } else { m.remove.clone() }));
+    let mut b = StoreBuilder::<St, Ac>::new(3);
+    if m.reducers.is_empty() {
+        b = b.without_reducer();
+    }
+    for (i, r) in m.reducers.iter().enumerate() {
+        b = b.add_reducer(Box::new(Rd { id: i, cfg: *r, log: log.clone() }));
+    }
+    for i in 0..m.n_mw {
+        b = b.add_middleware(Arc::new(Mw { id: i, verdicts: verdicts.clone(), remove_effect: remove.clone(), log: log.clone() }));
+    }
+    let store = match b.build() {
+        Ok(s) => s,
+        Err(_) => return Some(("O-C17-build-validation".into(), "build succeeds".into(), "Err".into())),
+    };
+    for i in 0..m.n_subs {
+        let _ = store.add_subscriber(Arc::new(Sb { id: i, log: log.clone() }));
+    }
+    for a in actions {
+        if store.dispatch(*a).is_err() {
+            return Some(("O-C02-dispatch-open".into(), "dispatch Ok on an open store".into(), "Err".into()));
+        }
+    }
+    store.stop();
+    let got: Vec<Ev> = log.lock().unwrap().iter().filter(|e| !matches!(e, Ev::Unsub(_))).cloned().collect();
+    let mut pos = 0usize;
+    let mut st: St = 3;
+    for a in actions {
+        let (ev_r, vetoed, s2, effs, nd, _n) = m.reduce(st, *a);
+        let (ev_e, _handed, _n2) = m.effect(s2, *a, &effs);
+        let (ev_n, _n3) = m.notify(s2, *a);
+        let mut exp: Vec<Ev> = ev_r.clone();
+        exp.extend(ev_e.iter().cloned());
+        let end = (pos + exp.len()).min(got.len());
+        if got[pos..end] != exp[..] {
+            let hooks_differ = got[pos..end].iter().filter(|e| matches!(e, Ev::BR(..) | Ev::BE(..) | Ev::OnErr(_))).ne(exp.iter().filter(|e| matches!(e, Ev::BR(..) | Ev::BE(..) | Ev::OnErr(_))));
+            let ob = if hooks_differ || vetoed { "O-C12-do_effect-trace" } else { "O-C07-loop-inv-trace" };
+            return Some((ob.into(), format!("action {}: reduce and effect phases {:?}", a, exp), format!("{:?}", &got[pos..end])));
+        }
+        pos = end;
+        let has_block = pos + ev_n.len() <= got.len() && got[pos..pos + ev_n.len()] == ev_n[..] && !ev_n.is_empty();
+        match nd {
+            Some(true) => {
+                if !ev_n.is_empty() && !has_block {
+                    return Some(("O-C03-do_notify-trace".into(), format!("action {}: notification phase {:?}", a, ev_n), format!("{:?}", &got[pos..(pos + ev_n.len()).min(got.len())])));
+                }
+                pos += ev_n.len();
+            }
+            Some(false) => {}
+            None => {
+                if has_block {
+                    pos += ev_n.len();
+                }
+            }
+        }
+        st = s2;
+    }
+    if pos != got.len() {
+        return Some(("O-C07-loop-inv-trace".into(), "no callback beyond the per-action blocks".into(), format!("{:?}", &got[pos..])));
+    }
+    if store.get_state() != st {
+        return Some(("O-C01-loop-state".into(), format!("get_state() after stop = {}", st), format!("{}", store.get_state())));
+    }
+    None
+}
+fn fmt_storepipe(m: &Model) -> String {
+    let v: Vec<String> = m.verdicts.iter().map(|t| t.iter().map(|x| vname(*x).chars().next().unwrap()).collect::<String>()).collect();
+    let r: Vec<String> = m.reducers.iter().map(|r| format!("{}{}", if r.dispatch { 'D' } else { 'K' }, r.effect)).collect();
+    format!("loop storepipe mw={} v={} red={} subs={}", m.n_mw, v.join("/"), r.join(","), m.n_subs)
+}
+fn suite_storepipe() -> Option<String> {
+    let chains: Vec<Vec<RCfg>> = vec![
+        vec![RCfg { dispatch: true, effect: 0 }],
+        vec![RCfg { dispatch: false, effect: 0 }],
+        vec![RCfg { dispatch: true, effect: 1 }],
+        vec![RCfg { dispatch: false, effect: 1 }],
+        vec![RCfg { dispatch: true, effect: 1 }, RCfg { dispatch: true, effect: 0 }],
+        vec![RCfg { dispatch: false, effect: 0 }, RCfg { dispatch: true, effect: 1 }],
+        vec![],
+    ];
+    for chain in chains.iter() {
+        // no middleware
+        let m = Model { n_mw: 0, verdicts: vec![], remove: vec![], reducers: chain.clone(), n_subs: 2 };
+        if let Some((ob, exp, got)) = run_storepipe_case(&m, &[1, 2]) {
+            return Some(found("loop", &ob, fmt_storepipe(&m), exp, got));
+        }
+        // one middleware: every verdict triple
+        for code in 0..64usize {
+            let t = [VS[code % 4], VS[(code / 4) % 4], VS[(code / 16) % 4]];
+            for rm in [false, true] {
+                if rm && chain.iter().all(|r| r.effect == 0) {
+                    continue;
+                }
+                let m = Model { n_mw: 1, verdicts: vec![t], remove: vec![rm], reducers: chain.clone(), n_subs: 1 };
+                if let Some((ob, exp, got)) = run_storepipe_case(&m, &[1, 2]) {
+                    return Some(found("loop", &ob, fmt_storepipe(&m) + if rm { " rm=1" } else { "" }, exp, got));
+                }
+            }
+        }
+    }
+    // two middlewares: the first takes every verdict triple, the second one of three fixed ones
+    let chain = vec![RCfg { dispatch: true, effect: 1 }];
+    for code in 0..64usize {
+        let t = [VS[code % 4], VS[(code / 4) % 4], VS[(code / 16) % 4]];
+        for t2 in [[V::Continue; 3], [V::Done; 3], [V::Err; 3]] {
+            let m = Model { n_mw: 2, verdicts: vec![t, t2], remove: vec![false, false], reducers: chain.clone(), n_subs: 1 };
+            if let Some((ob, exp, got)) = run_storepipe_case(&m, &[1]) {
+                return Some(found("loop", &ob, fmt_storepipe(&m), exp, got));
+            }
+        }
+    }
+    None
+}
+fn replay_storepipe(case: &str) -> Option<String> {
+    let mut n_mw = 0usize;
+    let mut verdicts: Vec<[V; 3]> = vec![];
+    let mut reducers: Vec<RCfg> = vec![];
+    let mut n_subs = 1usize;
+    let mut rm = false;
+    let vof = |c: char| match c { 'C' => V::Continue, 'D' => V::Done, 'B' => V::Break, _ => V::Err };
+    for tok in case.split_whitespace() {
+        if let Some(v) = tok.strip_prefix("mw=") {
+            n_mw = v.parse().unwrap();
+        } else if let Some(v) = tok.strip_prefix("v=") {
+            for t in v.split('/').filter(|x| x.len() == 3) {
+                let c: Vec<char> = t.chars().collect();
+                verdicts.push([vof(c[0]), vof(c[1]), vof(c[2])]);
+            }
+        } else if let Some(v) = tok.strip_prefix("red=") {
+            for t in v.split(',').filter(|x| x.len() >= 2) {
+                let c: Vec<char> = t.chars().collect();
+                reducers.push(RCfg { dispatch: c[0] == 'D', effect: c[1].to_digit(10).unwrap_or(0) as u8 });
+            }
+        } else if let Some(v) = tok.strip_prefix("subs=") {
+            n_subs = v.parse().unwrap();
+        } else if tok == "rm=1" {
+            rm = true;
+        }
+    }
+    let remove = vec![rm; n_mw.max(1)];
+    let m = Model { n_mw, verdicts, remove: if n_mw == 0 { vec![] } else { remove[..n_mw].to_vec() }, reducers, n_subs };
+    let actions: Vec<Ac> = if n_mw == 2 { vec![1] } else { vec![1, 2] };
+    run_storepipe_case(&m, &actions).map(|(ob, exp, got)| found("loop", &ob, case.to_string(), exp, got))
+}
 fn suite_loop() -> Option<String> {
+    if let Some(r) = suite_storepipe() {
+        return Some(r);
+    }
     if let Some((ob, exp, got)) = run_loop_readerrace() {
         return Some(found("loop", &ob, "loop readerrace".to_string(), exp, got));
     }
@@ -687,6 +841,9 @@ fn suite_loop() -> Option<String> {
     None
 }
 fn replay_loop(case: &str) -> Option<String> {
+    if case.contains("storepipe") {
+        return replay_storepipe(case);
+    }
     if case.contains("readerrace") {
         return run_loop_readerrace().map(|(ob, exp, got)| found("loop", &ob, case.to_string(), exp, got));
     }
@@ -1118,7 +1275,59 @@ fn run_subs_stoprace() -> Option<(String, String, String)> {
     }
     None
 }
+// unsubscribe() while the action is still in its before_dispatch hooks (the middleware is parked there): the call has
+// returned before the notification phase of that action has even looked at the subscriber list, so the subscriber must
+// not be notified of it (C09: once unsubscribe() has returned the subscriber receives nothing further)
+fn run_subs_midhook() -> Option<(String, String, String)> {
+    use std::sync::mpsc;
+    struct ParkMw {
+        entered: Mutex<mpsc::Sender<()>>,
+        gate: Mutex<mpsc::Receiver<()>>,
+    }
+    impl Middleware<St, Ac> for ParkMw {
+        fn before_dispatch(&self, action: &Ac, _s: &St, _d: Arc<dyn Dispatcher<Ac>>) -> Result<MiddlewareOp, StoreError> {
+            if *action == 2 {
+                let _ = self.entered.lock().unwrap().send(());
+                let _ = self.gate.lock().unwrap().recv_timeout(Duration::from_secs(5));
+            }
+            Ok(MiddlewareOp::ContinueAction)
+        }
+    }
+    let log: Log = Arc::new(Mutex::new(vec![]));
+    let (entered_tx, entered_rx) = mpsc::channel::<()>();
+    let (gate_tx, gate_rx) = mpsc::channel::<()>();
+    let store = StoreBuilder::<St, Ac>::new(0)
+        .with_reducer(Box::new(Rd { id: 0, cfg: RCfg { dispatch: true, effect: 0 }, log: log.clone() }))
+        .add_middleware(Arc::new(ParkMw { entered: Mutex::new(entered_tx), gate: Mutex::new(gate_rx) }))
+        .build()
+        .unwrap();
+    let leaving = store.add_subscriber(Arc::new(Sb { id: 0, log: log.clone() }));
+    let _staying = store.add_subscriber(Arc::new(Sb { id: 1, log: log.clone() }));
+    store.dispatch(1).unwrap();
+    store.dispatch(2).unwrap();
+    if entered_rx.recv_timeout(Duration::from_secs(5)).is_err() {
+        let _ = gate_tx.send(());
+        store.stop();
+        return None;
+    }
+    leaving.unsubscribe();
+    let _ = gate_tx.send(());
+    store.dispatch(3).unwrap();
+    store.stop();
+    let got = log.lock().unwrap().clone();
+    let seen = |i: usize| -> Vec<Ac> { got.iter().filter_map(|e| match e { Ev::Notify(j, _, a) if *j == i => Some(*a), _ => None }).collect() };
+    if seen(0) != vec![1] {
+        return Some(("O-C09-unsubscribe-removes-exactly-target".into(), "subscriber 0, unsubscribed while action 2 was in its before_dispatch hooks, is notified of [1] only".into(), format!("{:?}", seen(0))));
+    }
+    if seen(1) != vec![1, 2, 3] {
+        return Some(("O-C09-unsubscribe-removes-exactly-target".into(), "subscriber 1 (not unsubscribed) is notified of [1, 2, 3]".into(), format!("{:?}", seen(1))));
+    }
+    None
+}
 fn suite_subs() -> Option<String> {
+    if let Some((ob, exp, got)) = run_subs_midhook() {
+        return Some(found("subs", &ob, "subs midhook".to_string(), exp, got));
+    }
     for n in 2..=3usize {
         for k in 0..n {
             if let Some((ob, exp, got)) = run_subs_selfunsub(n, k) {
@@ -1141,6 +1350,9 @@ fn suite_subs() -> Option<String> {
     None
 }
 fn replay_subs(case: &str) -> Option<String> {
+    if case.contains("midhook") {
+        return run_subs_midhook().map(|(ob, exp, got)| found("subs", &ob, case.to_string(), exp, got));
+    }
     if case.contains("stoprace") {
         return run_subs_stoprace().map(|(ob, exp, got)| found("subs", &ob, case.to_string(), exp, got));
     }
@@ -1377,7 +1589,68 @@ fn run_block_reentrant() -> Option<(String, String, String)> {
     }
     None
 }
+// an Effect::Action emitted while the queue is full and a producer is waiting for room (BlockOnFull): the reducer must
+// keep draining -- the follow-up action is dispatched by a worker, not by the reducer itself -- so the waiting producer
+// resumes and every accepted action is reduced (C05, C11)
+fn run_block_effectaction(cap: usize) -> Option<(String, String, String)> {
+    use std::sync::mpsc;
+    let (gate_tx, gate_rx) = mpsc::channel::<()>();
+    let gate_rx = Mutex::new(gate_rx);
+    let (entered_tx, entered_rx) = mpsc::channel::<()>();
+    let entered_tx = Mutex::new(entered_tx);
+    let reduced: Arc<Mutex<Vec<Ac>>> = Arc::new(Mutex::new(vec![]));
+    let r2 = reduced.clone();
+    let store = StoreBuilder::<St, Ac>::new(0)
+        .with_capacity(cap)
+        .with_reducer(Box::new(crate::reducer::FnReducer::from(move |s: &St, a: &Ac| {
+            if *a == 0 {
+                let _ = entered_tx.lock().unwrap().send(());
+                let _ = gate_rx.lock().unwrap().recv_timeout(Duration::from_secs(10));
+            }
+            r2.lock().unwrap().push(*a);
+            let eff = if *a == 0 { Some(Effect::Action(500)) } else { None };
+            DispatchOp::Dispatch(mix(*s, *a, 0), eff)
+        })))
+        .build()
+        .unwrap();
+    if store.dispatch(0).is_err() || entered_rx.recv_timeout(Duration::from_secs(10)).is_err() {
+        let _ = gate_tx.send(());
+        store.stop();
+        return None;
+    }
+    for a in 1..=cap as Ac {
+        let _ = store.dispatch(a);
+    }
+    let s2 = store.clone();
+    let (done_tx, done_rx) = mpsc::channel::<bool>();
+    let extra = cap as Ac + 1;
+    let producer = std::thread::spawn(move || {
+        let _ = done_tx.send(s2.dispatch(extra).is_ok());
+    });
+    std::thread::sleep(Duration::from_millis(200));
+    let _ = gate_tx.send(());
+    let resumed = done_rx.recv_timeout(Duration::from_secs(8)).unwrap_or(false);
+    let t0 = Instant::now();
+    let want = cap + 3;
+    while reduced.lock().unwrap().len() < want && t0.elapsed() < Duration::from_secs(8) {
+        std::thread::sleep(Duration::from_millis(10));
+    }
+    let got = reduced.lock().unwrap().clone();
+    if !resumed || got.len() < want {
+        // the store is wedged: leave it (stop() would hang behind the dispatch lock); the threads die with the process
+        std::mem::forget(producer);
+        return Some(("O-C11-do_effect-spawn".into(), format!("the producer waiting on the full queue resumes and all {} actions (0, 1..={}, {}, and the follow-up 500) are reduced", want, cap, extra), format!("producer resumed: {}, reduced so far {:?}", resumed, got)));
+    }
+    let _ = producer.join();
+    store.stop();
+    None
+}
 fn suite_block() -> Option<String> {
+    for cap in [1usize, 3] {
+        if let Some((ob, exp, got)) = run_block_effectaction(cap) {
+            return Some(found("block", &ob, format!("block effectaction cap={}", cap), exp, got));
+        }
+    }
     if let Some((ob, exp, got)) = run_block_reentrant() {
         return Some(found("block", &ob, "block reentrant".to_string(), exp, got));
     }
@@ -1396,6 +1669,10 @@ fn suite_block() -> Option<String> {
     None
 }
 fn replay_block(case: &str) -> Option<String> {
+    if case.contains("effectaction") {
+        let cap: usize = case.split_whitespace().find_map(|t| t.strip_prefix("cap=")).unwrap_or("1").parse().unwrap();
+        return run_block_effectaction(cap).map(|(ob, exp, got)| found("block", &ob, case.to_string(), exp, got));
+    }
     if case.contains("reentrant") {
         return run_block_reentrant().map(|(ob, exp, got)| found("block", &ob, case.to_string(), exp, got));
     }
